@@ -10,6 +10,7 @@
  * 1..65535. Where the statement is silent the oracle accepts any behaviour; those places are marked
  * "SILENT" below. */
 #define _GNU_SOURCE
+#include <unistd.h>
 #include "ku.h"
 #include "ref/ref.h"
 #include "simnet.h"
@@ -624,6 +625,54 @@ done:
 	KSI_CTX_free(ctx);
 }
 
+/* (3c) file transport re-pointed after it has served requests: the following requests are answered from the file configured NOW */
+static void file_switch_case(int ext) {
+	KSI_CTX *ctx = ku_ctx();
+	KSI_DataHash *hsh = NULL;
+	KSI_Integer *t0 = NULL;
+	unsigned char imp[RH_MAX_IMPRINT];
+	size_t il = ref_fake_imprint(RH_SHA256, 22, imp);
+	char pa[80], pb[80], ua[100], ub[100];
+	static const char *WANT[] = {"A1", "A2", "B1", "B2"};
+	FILE *f;
+	int step, k;
+	snprintf(pa, sizeof pa, "/tmp/vf_c20_%ld_a.tlv", (long)getpid()); snprintf(pb, sizeof pb, "/tmp/vf_c20_%ld_b.tlv", (long)getpid());
+	snprintf(ua, sizeof ua, "file://%s", pa); snprintf(ub, sizeof ub, "file://%s", pb);
+	for (k = 0; k < 2; k++) {
+		int j;
+		f = fopen(k ? pb : pa, "wb");
+		if (!f) vf_harness_error("cannot create %s", k ? pb : pa);
+		for (j = 1; j <= 4; j++) { unsigned char t[4] = {0x05, 0x02, (unsigned char)(k ? 'B' : 'A'), (unsigned char)('0' + j)}; fwrite(t, 1, 4, f); }
+		fclose(f);
+	}
+	if (KSI_DataHash_fromImprint(ctx, imp, il, &hsh) != KSI_OK || KSI_Integer_new(ctx, 1600000000, &t0) != KSI_OK) vf_harness_error("fixtures");
+	for (step = 0; step < 4; step++) {
+		KSI_AggregationReq *areq = NULL;
+		KSI_ExtendReq *ereq = NULL;
+		KSI_RequestHandle *rh = NULL;
+		const unsigned char *raw = NULL;
+		size_t rl = 0;
+		int res;
+		if (step == 0 || step == 2) {
+			res = ext ? KSI_CTX_setExtender(ctx, step ? ub : ua, "u", "k") : KSI_CTX_setAggregator(ctx, step ? ub : ua, "u", "k");
+			if (res != KSI_OK) { report("wellformed-refused:config", "file URI %s refused with 0x%x", step ? ub : ua, res); break; }
+		}
+		if (ext) { if (KSI_createExtendRequest(ctx, t0, NULL, &ereq) != KSI_OK) vf_harness_error("createExtendRequest"); res = KSI_sendExtendRequest(ctx, ereq, &rh); }
+		else { if (KSI_createSignRequest(ctx, hsh, 0, &areq) != KSI_OK) vf_harness_error("createSignRequest"); res = KSI_sendSignRequest(ctx, areq, &rh); }
+		if (res == KSI_OK) res = KSI_RequestHandle_perform(rh);
+		if (res == KSI_OK) res = KSI_RequestHandle_getResponse(rh, &raw, &rl);
+		O.impl_calls += 3;
+		if (res != KSI_OK || rl != 4 || raw[2] != (unsigned char)WANT[step][0] || raw[3] != (unsigned char)WANT[step][1])
+			report("file-endpoint-stale", "file transport (%s), request %d: expected the element '%s' of the file configured now, got res 0x%x and %zu bytes '%c%c'", ext ? "extender" : "aggregator", step + 1, WANT[step], res, rl, rl == 4 ? raw[2] : '?', rl == 4 ? raw[3] : '?');
+		else vf_outcome("file-switch:%s", WANT[step]);
+		KSI_RequestHandle_free(rh);
+		KSI_AggregationReq_free(areq); KSI_ExtendReq_free(ereq);
+	}
+	KSI_DataHash_free(hsh); KSI_Integer_free(t0);
+	KSI_CTX_free(ctx);
+	remove(pa); remove(pb);
+}
+
 static void run(void) {
 	ccase c;
 	int nsample = 0;
@@ -704,6 +753,17 @@ static void run(void) {
 			if (!vf_case_begin("after-refused:pr%d:r%d:%s", pr, r, ext ? "extender" : "aggregator")) continue;
 			reset_seam();
 			after_refused_case(pr, r, ext);
+			vf_count("impl_calls", O.impl_calls);
+			vf_case_end(1);
+		}
+	}
+	{
+		int ext;
+		for (ext = 0; ext < 2; ext++) {
+			if (!vf_case_begin("file-switch:%s", ext ? "extender" : "aggregator")) continue;
+			reset_seam();
+			g_armed = 0;          /* real files */
+			file_switch_case(ext);
 			vf_count("impl_calls", O.impl_calls);
 			vf_case_end(1);
 		}
